@@ -27,7 +27,8 @@ class BaseSolver(object):
             f.write(out)
 
     def CreateCsvString(self):
-        varlist = self.VariableList
+        # Work on a copy; self.VariableList (shared with the caller) is not modified.
+        varlist = list(self.VariableList)
         if 't' in varlist:
             varlist.remove('t')
             varlist = ['t', ] + varlist
